@@ -196,7 +196,13 @@ func TestVerifC09(t *testing.T) {
 					case b.nilv:
 						return "ok # match=" + strconv.Itoa(d.CallIn(reflect.Value{}))
 					case b.v.Type().AssignableTo(d.Typ):
-						return "ok # match=" + strconv.Itoa(d.CallIn(b.v))
+						res := "ok # match=" + strconv.Itoa(d.CallIn(b.v))
+						// near miss: the same call with the lowest bit of a scalar argument flipped (or one byte appended to a
+						// string) must NOT be answered by When(x): values are compared as values of the declared type, unaltered
+						if nv, ok := c09mNear(b.v); ok && d.Typ == b.v.Type() {
+							res += " near=" + strconv.Itoa(d.CallIn(nv))
+						}
+						return res
 					}
 					return "ok # match=-"
 				})
@@ -207,4 +213,23 @@ func TestVerifC09(t *testing.T) {
 			out.Put(op.Idx, "%s", res)
 		}
 	}
+}
+
+
+// c09mNear returns a value of the same type that differs from v in the least significant position.
+func c09mNear(v reflect.Value) (reflect.Value, bool) {
+	n := reflect.New(v.Type()).Elem()
+	switch v.Kind() {
+	case reflect.Int, reflect.Int8, reflect.Int16, reflect.Int32, reflect.Int64:
+		n.SetInt(v.Int() ^ 1)
+	case reflect.Uint, reflect.Uint8, reflect.Uint16, reflect.Uint32, reflect.Uint64, reflect.Uintptr:
+		n.SetUint(v.Uint() ^ 1)
+	case reflect.String:
+		n.SetString(v.String() + "x")
+	case reflect.Bool:
+		n.SetBool(!v.Bool())
+	default:
+		return v, false
+	}
+	return n, true
 }
